@@ -157,19 +157,18 @@ Definition add_write_event (s0 : sel) (i : nat) (fd tok : Z) : bool * sel :=
     if ok then (true, with_w s1 (zadd fd (s_wrec s1)) (aset fd tok (s_wtok s1)))
     else (false, s1).
 
-(** [del_event]: the token handed to [deregister] is the readable token record if there is one
-    (and that record is removed), otherwise the writable one (removed as well), otherwise 0 *)
+(** [del_event]: the token handed to [deregister] is the readable token record if there is one,
+    otherwise the writable one, otherwise 0. BOTH token records are removed in every case: the code
+    reads [READABLE_TOKEN_RECORDS.remove(&fd).or(WRITABLE_TOKEN_RECORDS.remove(&fd))] and the argument
+    of [Option::or] is evaluated before the call. *)
 Definition del_event_core (s : sel) (i : nat) (fd : Z) : bool * sel :=
   if zmem fd (s_rrec s) || zmem fd (s_wrec s) then
-    let '(tok, s1) :=
+    let tok :=
       match aget fd (s_rtok s) with
-      | Some t => (t, with_r s (s_rrec s) (arem fd (s_rtok s)))
-      | None =>
-          match aget fd (s_wtok s) with
-          | Some t => (t, with_w s (s_wrec s) (arem fd (s_wtok s)))
-          | None => (0, s)
-          end
+      | Some t => t
+      | None => match aget fd (s_wtok s) with Some t => t | None => 0 end
       end in
+    let s1 := with_w (with_r s (s_rrec s) (arem fd (s_rtok s))) (s_wrec s) (arem fd (s_wtok s)) in
     let '(ok, s2) := deregister s1 i fd tok in
     if ok then (true, with_w (with_r s2 (zrem fd (s_rrec s2)) (s_rtok s2)) (zrem fd (s_wrec s2)) (s_wtok s2))
     else (false, s2)
